@@ -135,7 +135,7 @@ namespace
         // TSW
         std::deque<long> win; long pushes{0};
         bool any_op{false};
-        std::map<long, std::set<long>> smap_at_cycle_start;
+        std::map<long, std::set<long>> graveyard;  // contents of keys erased earlier in the current cycle
     };
 
     struct ShapeTS
@@ -365,7 +365,7 @@ namespace
     {
         Expect e;
         Model before = m;
-        m.smap_at_cycle_start = m.smap;
+        m.graveyard.clear();
         bool effective = false, any = false, invalidated_last = false, wrote = false, invalidated = false;
         std::map<long, long> removed_value;  // dict: value held at the moment of removal
         std::set<long> touched;  // dict keys / indices written this cycle
@@ -403,11 +403,11 @@ namespace
                     {
                         const long k = std::stol(op.substr(1, col - 1));
                         // a key erased earlier in this cycle and added again is the SAME element (the cancelling pair leaves no trace): it keeps its contents
-                        if (!m.smap.count(k) && m.smap_at_cycle_start.count(k)) m.smap[k] = m.smap_at_cycle_start[k];
+                        if (!m.smap.count(k) && m.graveyard.count(k)) m.smap[k] = m.graveyard[k];
                         m.smap[k].insert(std::stol(op.substr(col + 1))); touched.insert(k); effective = true;
                     }
                     else if (op[0] == 'r') { const long k = std::stol(op.substr(1, col - 1)); if (m.smap.count(k)) { if (m.smap[k].erase(std::stol(op.substr(col + 1)))) effective = true; touched.insert(k); } }
-                    else if (op[0] == 'e') { const long k = std::stol(op.substr(1)); if (m.smap.erase(k)) effective = true; touched.erase(k); }
+                    else if (op[0] == 'e') { const long k = std::stol(op.substr(1)); if (m.smap.count(k)) { m.graveyard[k] = m.smap[k]; m.smap.erase(k); effective = true; } touched.erase(k); }
                 }
                 else if constexpr (std::is_same_v<Sh, ShapeTSL>)
                 {
